@@ -218,7 +218,12 @@ pub fn check_history(u: u8, hist: &[Op]) -> Option<String> {
             return Some(e);
         }
     }
-    check_wild_classes(u, hist)
+    // (in the fixpoint runs over 4 and more elements, with tens of millions of transitions, only the short histories)
+    if u <= 3 || hist.len() <= 5 {
+        check_wild_classes(u, hist)
+    } else {
+        None
+    }
 }
 
 /// classes() asked BEFORE any observing find, on a third separate replay of the history: queries with repeated
